@@ -26,13 +26,108 @@ def shapes(tier):
     return dedup(J)
 
 
+def make_models():
+    from props import C06
+    return C06.make_models()
+
+
+def scenario_init(it, params):
+    """SimInit::init(start time): writes the start time, synchronizes ONCE on it, then runs the executor (initialisation code)"""
+    import z3
+    from props import C06
+    from vlib.mirse.models import mk_dur, mk_time, none, ok
+    from vlib.mirse.values import Agg, B, Cell, Opaque, Ptr, Z, unit
+    from vlib.mirse import driver as D
+    P = it.P
+    ev = []
+    it.env["witness"] = dict(scenario="init")
+    t0 = D.SymParams(it).time("t0")
+
+    def run(it_, cal, args):
+        ev.append(("run",))
+        return ok(unit())
+
+    def sync(it_, cal, args):
+        ev.append(("sync", D.T(args[1])))
+        return Agg("SyncStatus", [], variant="Synchronized")
+
+    it.models.extra.update({"Executor::run": run, "executor::Executor::run": run, "<TestClock as Clock>::synchronize": sync})
+    wname = P.find_def("SyncCell", None, "write")
+    it.fn_hooks[wname[0]] = lambda itp, fn, args: ev.append(("timewrite", D.T(args[1])))
+    names = C06.struct_fields(P, "nexosim/src/simulation/sim_init.rs", "SimInit")
+    pq = it.call_fn("PriorityQueue", None, "new", [])
+    tat = it.call_fn("TearableAtomicTime", None, "new", [mk_time(0)])
+    vals = {
+        "executor": Opaque("Executor"), "scheduler_queue": it.alloc(Agg("Mutex", [pq, B(False)]), tag="schedq", kind="arc"),
+        "time": it.call_fn("SyncCell", None, "new", [tat]), "clock": it.alloc(Opaque("TestClock"), tag="clock", kind="box"),
+        "clock_tolerance": none(), "timeout": mk_dur(0), "observers": Agg("Vec", []), "abort_signal": it.call_fn("Signal", None, "new", []),
+        "model_names": Agg("Vec", []),
+    }
+    if sorted(names) != sorted(vals):
+        from vlib.mirse.interp import Unsupported
+        raise Unsupported(f"SimInit has fields the scenario does not know: {names}")
+    init = Agg("SimInit", [vals[n] for n in names], meta=names)
+    r = it.call_fn("SimInit", None, "init", [init, mk_time(Z(t0))])
+    it.check(B(r.variant == "Ok"), "C18:init-ok", "")
+    syncs = [e for e in ev if e[0] == "sync"]
+    it.check(B(len(syncs) == 1), "C18:init-synchronizes-exactly-once", f"{len(syncs)} synchronize call(s) during init")
+    if syncs:
+        it.check(syncs[0][1] == t0, "C18:init-synchronizes-on-the-start-time", "")
+        kinds = [e[0] for e in ev]
+        it.check(B("run" not in kinds[:kinds.index("sync")]), "C18:init-synchronizes-before-any-init-code", "")
+        it.check(B("timewrite" in kinds[:kinds.index("sync")]), "C18:init-sets-the-time-before-synchronizing", "")
+    if r.variant == "Ok":
+        sim = r.fields[0].fields[0]
+        now = it.call_fn("Simulation", None, "time", [Ptr(Cell(sim, tag="sim"), (), "ref")])
+        it.check(D.T(now) == t0, "C18:init-time-is-start-time", "")
+
+
+def _native_init(work, job, v, d):
+    """replay: SimInit::init through the public API with a recording clock (the script runner reports the init-time synchronize calls)"""
+    import os
+    from vlib.mirse import native as NV
+    from vlib import common as C
+    exe, out = NV.build_runner(work)
+    if not exe:
+        return None
+    t0 = int(v["vals"].get("t0.t", 0))
+    if t0 == 0:
+        t0 = 1234567890_000000000   # the start time is universally quantified: use a non-trivial one for the replay
+    spath = os.path.join(d, "script.txt")
+    nobs, raw = NV.run_native(exe, f"t0 {t0}\ntol none\nstep\n", spath)
+    open(os.path.join(d, "native_trace.txt"), "w").write(raw)
+    inits = [int(l.split()[2]) for l in raw.splitlines() if l.startswith("VERIF-INIT initsync")]
+    open(os.path.join(d, "README.txt"), "w").write(
+        f"Counterexample for C18 ({v['label']}): SimInit::init({t0}) through the public API with a recording clock; synchronize calls during "
+        f"init: {inits} (expected exactly [{t0}]).\nRe-run: ./check C18 --replay {d}\n")
+    return inits != [t0]
+
+
+def init_check(tier, ev):
+    from vlib import scnprop as SP
+    return SP.run(PROP, tier, ev, "props.C18", [dict(scenario="scenario_init", params={})], native_replay=_native_init, work_key="mirse-C18")
+
+
 def run(tier, only=None):
     return run_prop(PROP, GROUPS, tier, shapes(tier), {
         "shapes": "2 (thorough: 3) actions + <= 3 stepping commands; the k-th synchronize() answers Synchronized or OutOfSync(symbolic lag) "
                   "according to every script of length <= 3; with and without a (symbolic) tolerance",
-    }, outside=["SimInit::init's own synchronize(start time) (not part of the driver-logic world)",
-                "what a real clock does inside synchronize()"], only=only)
+    }, outside=["what a real clock does inside synchronize()"], only=only, extra=(lambda ev: init_check(tier, ev)) if not only else None)
 
 
 def replay(path):
+    import json
+    import os
+    ce = json.load(open(os.path.join(path, "counterexample.json")))
+    if "witness" in ce:
+        from vlib import common as C
+        work = C.WorkDir("mirse-C18")
+        try:
+            ok = _native_init(work, {}, dict(vals=ce["values"], label=ce["obligation"]), path)
+            if ok:
+                C.log(f"VIOLATION property={PROP} replay={path}")
+                return C.EXIT_VIOLATION
+            return C.EXIT_OK if ok is False else C.EXIT_INCONCLUSIVE
+        finally:
+            work.close()
     return DP.replay(PROP, path, GROUPS)
